@@ -75,6 +75,88 @@ package boltdb
 //@   ensures [C13:a-beacon-is-stored-by-at-most-one-transaction] ntx(b.db) == old(ntx(b.db)) || ntx(b.db) == old(ntx(b.db)) + 1
 
 //@ func (*BoltStore).Put$1(tx) (err)
-//@   props C13
+//@   props C13 C18
 //@   requires nput(tx) == 0 && beacon != nil
 //@   ensures [C13:the-transaction-writes-one-record-under-the-round-key] err == nil ==> nput(tx) == 1 && bytesEq(putKey(tx, beaconBucket), chain.be64(beacon.Round))
+//@   ensures [C18:the-record-written-decodes-to-the-beacon-of-its-key] err == nil ==> jsRound(putVal(tx, beaconBucket)) == beacon.Round && bytesEq(jsSig(putVal(tx, beaconBucket)), beacon.Signature) && bytesEq(jsPrev(putVal(tx, beaconBucket)), beacon.PreviousSig)
+
+// ---- C18: untrimmed bolt back-end: a value is the JSON encoding of the whole beacon ----------------------------------------
+// jsRound / jsSig / jsPrev: what decoding a stored value yields (encoding/json assumed: decoding is a function of the bytes
+// and decoding an encoding gives the value back). jsonBucketInv: every value decodes to a beacon of the round its key
+// encodes: established by Put (its transaction writes Marshal(beacon) under RoundToBytes(beacon.Round), checked below), which
+// is the only writer of the bucket besides Del.
+//@ ghost jsRound(bytes) int
+//@ ghost jsSig(bytes) bytes
+//@ ghost jsPrev(bytes) bytes
+//@ extern (*github.com/drand/drand/v2/common.Beacon).Unmarshal(b, buff) (err)
+//@   trusted encoding/json: decoding is a function of the bytes
+//@   modifies b.Round, b.Signature, b.PreviousSig
+//@   ensures err == nil ==> b.Round == jsRound(buff) && b.Signature == jsSig(buff) && b.PreviousSig == jsPrev(buff)
+//@ extern (*github.com/drand/drand/v2/common.Beacon).Marshal(b) (r, err)
+//@   trusted encoding/json: decoding the encoding of a beacon gives the beacon back
+//@   modifies nothing
+//@   ensures err == nil ==> jsRound(r) == b.Round && bytesEq(jsSig(r), b.Signature) && bytesEq(jsPrev(r), b.PreviousSig)
+//@ pred jsonBucketInv(bk) := forall k bytes {hasKey(bk, k)} :: hasKey(bk, k) ==> jsRound(kvVal(bk, k)) == chain.rd64(k)
+//@ pred jsLabelled(bk, b) := b != nil && hasKey(bk, chain.be64(b.Round)) && b.Signature == jsSig(kvVal(bk, chain.be64(b.Round))) && b.PreviousSig == jsPrev(kvVal(bk, chain.be64(b.Round)))
+
+//@ extern (*go.etcd.io/bbolt.Cursor).First(c) (k, v)
+//@   trusted bbolt: first pair of the bucket or nil; keys of the beacon bucket are 8-byte round keys
+//@   modifies nothing
+//@   ensures (k == nil ==> v == nil) && (k != nil ==> len(k) == 8 && hasKey(bucketOf(c), k) && v == kvVal(bucketOf(c), k) && v != nil)
+//@ extern (*go.etcd.io/bbolt.Cursor).Next(c) (k, v)
+//@   trusted bbolt: next pair in key order or nil
+//@   modifies nothing
+//@   ensures (k == nil ==> v == nil) && (k != nil ==> len(k) == 8 && hasKey(bucketOf(c), k) && v == kvVal(bucketOf(c), k) && v != nil)
+//@ extern (*go.etcd.io/bbolt.Cursor).Last(c) (k, v)
+//@   trusted bbolt: last pair of the bucket or nil
+//@   modifies nothing
+//@   ensures (k == nil ==> v == nil) && (k != nil ==> len(k) == 8 && hasKey(bucketOf(c), k) && v == kvVal(bucketOf(c), k) && v != nil)
+
+//@ func (*boltCursor).First(c, ctx) (b, err)
+//@   props C18
+//@   requires c.Cursor != nil && jsonBucketInv(bucketOf(c.Cursor))
+//@   ensures [C18:bolt-cursor-beacon-carries-the-data-stored-under-its-own-round] err == nil ==> jsLabelled(bucketOf(c.Cursor), b)
+//@ func (*boltCursor).Next(c, ctx) (b, err)
+//@   props C18
+//@   requires c.Cursor != nil && jsonBucketInv(bucketOf(c.Cursor))
+//@   ensures [C18:bolt-cursor-beacon-carries-the-data-stored-under-its-own-round] err == nil ==> jsLabelled(bucketOf(c.Cursor), b)
+//@ func (*boltCursor).Last(c, ctx) (b, err)
+//@   props C18
+//@   requires c.Cursor != nil && jsonBucketInv(bucketOf(c.Cursor))
+//@   ensures [C18:bolt-cursor-beacon-carries-the-data-stored-under-its-own-round] err == nil ==> jsLabelled(bucketOf(c.Cursor), b)
+//@ func (*boltCursor).Seek(c, ctx, round) (b, err)
+//@   props C18
+//@   requires c.Cursor != nil && jsonBucketInv(bucketOf(c.Cursor))
+//@   ensures [C18:bolt-cursor-beacon-carries-the-data-stored-under-its-own-round] err == nil ==> jsLabelled(bucketOf(c.Cursor), b)
+//@   ensures [C18:bolt-seek-of-a-stored-round-returns-that-round] err == nil && hasKey(bucketOf(c.Cursor), chain.be64(round)) ==> b.Round == round
+
+//@ extern (*go.etcd.io/bbolt.Bucket).Cursor(bk) (c)
+//@   trusted bbolt: a cursor over that bucket; the receiver is dereferenced (Bucket.Cursor reads b.tx)
+//@   requires bk != nil
+//@   modifies nothing
+//@   ensures c != nil && bucketOf(c) == bk
+
+// Get / Last read inside one read-only transaction; the closure decodes the value found under the round key (Get) or the
+// last pair (Last) into the beacon the outer function returns.
+//@ func (*BoltStore).Get$1(tx) (err)
+//@   props C18
+//@   modifies beacon.Round, beacon.Signature, beacon.PreviousSig
+//@   requires beacon != nil && txBucket(tx, beaconBucket) != nil && jsonBucketInv(txBucket(tx, beaconBucket))
+//@   ensures [C18:bolt-get-decodes-the-value-stored-under-the-requested-round] err == nil ==> beacon.Round == round && jsLabelled(txBucket(tx, beaconBucket), beacon)
+//@   ensures [C18:bolt-get-of-a-missing-round-is-an-error] !hasKey(txBucket(tx, beaconBucket), chain.be64(round)) ==> err != nil
+//@ func (*BoltStore).Get(b, ctx, round) (res, err)
+//@   props C18
+//@   requires b.db != nil
+//@   ensures [C18:bolt-get-returns-exactly-the-requested-round] err == nil ==> res != nil && res.Round == round
+
+//@ func (*BoltStore).Last$1(tx) (err)
+//@   props C18
+//@   modifies beacon.Round, beacon.Signature, beacon.PreviousSig
+//@   requires beacon != nil && txBucket(tx, beaconBucket) != nil && jsonBucketInv(txBucket(tx, beaconBucket))
+//@   ensures [C18:bolt-last-decodes-a-stored-value-of-its-own-round] err == nil ==> jsLabelled(txBucket(tx, beaconBucket), beacon)
+
+// ---- C13: opening an existing database file that a crash left without the beacon bucket must not panic the restart ---------
+// (bolt.Open creates the file, a separate transaction creates the bucket: a process death in between leaves a valid
+// database without it; Tx.Bucket then returns nil)
+//@ func shouldUseTrimmedBolt$2(tx) (err)
+//@   props C13
